@@ -137,17 +137,44 @@ def build(prog):
             if k == 'camera':
                 return scene.CameraNode(cameras[n['idx']])
             if k == 'node':
-                return scene.NodeNode(byid[n['ref']])
+                return scene.NodeNode(ensure(n['ref']))
             raise ValueError(k)
         o = scene.Node(n['id'], children=[node(c) for c in n.get('children', [])],
                        transforms=[transform(t) for t in n.get('transforms', [])], name=n.get('name'))
         byid[n['id']] = o
         return o
 
+    # top-level nodes (library and scenes) may instantiate one another in any order (forward
+    # references in the document): a target is built on demand, placed in document order
+    tops = {}
+
+    def register(spec, top):
+        if 'inst' in spec:
+            return
+        tops[spec['id']] = top
+        for c in spec.get('children', []):
+            register(c, top)
     for n in prog.get('nodes', []):
-        col.nodes.append(node(n))
+        register(n, n)
     for s in prog.get('scenes', []):
-        col.scenes.append(scene.Scene(s['id'], [node(n) for n in s['nodes']]))
+        for n in s['nodes']:
+            register(n, n)
+    building = set()
+
+    def ensure(nid):
+        if nid not in byid:
+            top = tops[nid]
+            if top['id'] in building:
+                raise ValueError('cyclic or self-nested instance_node in program: %s' % nid)
+            building.add(top['id'])
+            node(top)
+            building.discard(top['id'])
+        return byid[nid]
+
+    for n in prog.get('nodes', []):
+        col.nodes.append(ensure(n['id']))
+    for s in prog.get('scenes', []):
+        col.scenes.append(scene.Scene(s['id'], [ensure(n['id']) for n in s['nodes']]))
     if prog.get('scene') is not None:
         col.scene = col.scenes[prog['scene']]
     return col
